@@ -133,7 +133,7 @@ pub fn drain_strays(rep: &mut Report, check: &str, lock: &mut Lock, j: &Judge) {
                     bytes[i] = *b;
                 }
                 for (a, v) in &c.patches {
-                    let d = a.wrapping_sub(c.pc);
+                    let d = a.wrapping_sub(c.pc & !1);
                     if d < 10 {
                         bytes[d as usize] = *v;
                     }
